@@ -26,7 +26,51 @@ ASSUMPTIONS = ['the input key must not contain the path for a replay in another 
 MIB = 1024 * 1024
 
 
-def contents(rng, size=None):
+CONTENT_KINDS = ['zlib_of_random', 'zlib_of_text', 'gzip', 'bz2', 'base64_text', 'json_text', 'b64_tagged_json', 'base64_of_placeholder', 'zlib_of_zlib',
+                 'zlib_prefix_then_garbage', 'utf16_text', 'raw_deflate']
+
+
+def contents_of_kind(rng, kind):
+    """Files whose own bytes are already some encoding / compression of something else (a git object, a .zz payload, an export that is
+    base64 or JSON text): the framework stores and restores THESE bytes, it does not interpret them."""
+    import base64
+    import bz2
+    import gzip
+    import json as _json
+    import zlib
+    rnd = bytes(rng.randrange(256) for _ in range(rng.randrange(200, 4000)))
+    text = (b'row %d;' % rng.randrange(1000)) * rng.randrange(50, 400)
+    if kind == 'zlib_of_random':
+        return zlib.compress(rnd)
+    if kind == 'zlib_of_text':
+        return zlib.compress(text)
+    if kind == 'gzip':
+        return gzip.compress(rnd)
+    if kind == 'bz2':
+        return bz2.compress(text)
+    if kind == 'base64_text':
+        return base64.b64encode(rnd)
+    if kind == 'json_text':
+        return _json.dumps({'file_content': 'abc', 'rows': [1, 2, 3]}).encode()
+    if kind == 'b64_tagged_json':
+        return _json.dumps({'py/b64': base64.b64encode(b'not what you think').decode()}).encode()
+    if kind == 'base64_of_placeholder':
+        return base64.b64encode(b'above interception limit')
+    if kind == 'zlib_of_zlib':
+        return zlib.compress(zlib.compress(rnd))
+    if kind == 'zlib_prefix_then_garbage':
+        return zlib.compress(rnd) + b'trailing bytes after the stream'
+    if kind == 'utf16_text':
+        return u'text \u00e9 \u65e5\u672c'.encode('utf-16')
+    if kind == 'raw_deflate':
+        c = zlib.compressobj(9, zlib.DEFLATED, -15)
+        return c.compress(rnd) + c.flush()
+    raise ValueError(kind)
+
+
+def contents(rng, size=None, kind=None):
+    if kind is not None:
+        return contents_of_kind(rng, kind)
     if size is not None:
         base = bytes(rng.randrange(256) for _ in range(1024))
         return (base * (size // 1024 + 1))[:size]
@@ -52,7 +96,7 @@ def trip(ctx, case):
     from playback.interception.files.output_file_interception import OutputInterceptionFileDataHandler
     from playback.interception.files.file_interception import FileInterception
     rng = random.Random(case['seed'])
-    content = contents(rng, case.get('size'))
+    content = contents(rng, case.get('size'), case.get('content_kind'))
     static_in, static_out, kw_in, kw_out = case['static_in'], case['static_out'], case['kw_in'], case['kw_out']
     limit_mb = case.get('limit_mb')
     above = case.get('above', False)
@@ -73,6 +117,10 @@ def trip(ctx, case):
             kw = {} if limit_mb is None else {'intercepted_size_limit': limit_mb}
             in_handler = InputInterceptionFileDataHandler(0 if static_in else 1, 'file_path', **kw)
             out_handler = OutputInterceptionFileDataHandler(0, 'file_path', **kw)
+            if case.get('relimit') is not None:
+                # handlers are created where the decorators are evaluated (import time); a service that learns its limit later sets the
+                # public attribute of the existing handlers
+                in_handler.intercepted_size_limit = out_handler.intercepted_size_limit = case['relimit']
             state = {'mode': 'live', 'fetch_bodies': 0, 'publish_bodies': 0}
 
             def fetch_body(file_path):
@@ -588,6 +636,26 @@ def run(ctx):
             ctx.case(case)
             ctx.count('large_file_trips')
             trip(ctx, case)
+    # files that are themselves encoded / compressed data, on every cassette
+    for ki, kind in enumerate(CONTENT_KINDS):
+        for ci, cassette in enumerate(['memory', 'file', 's3']):
+            idx += 1
+            if ctx.mine(idx) and (not ctx.quick or (ki + ci) % 3 == 0 or kind.startswith('zlib')):
+                case = dict(shapes(rng), seed=base + idx, content_kind=kind, cassette=cassette)
+                ctx.case(case)
+                ctx.count('encoded_content_trips')
+                trip(ctx, case)
+    # the limit of existing handlers is changed after they were constructed (lowered below / raised above the file size)
+    for built_with, now, size in ((1, 1024 / float(MIB), 2000), (1024 / float(MIB), 1, 2000), (None, 1024 / float(MIB), 1025), (1024 / float(MIB), 2048 / float(MIB), 2048),
+                                  (5, 0, 10), (0, 5, 10)):
+        for rep in range(1 if ctx.quick else 3):
+            idx += 1
+            if ctx.mine(idx):
+                case = dict(shapes(rng), seed=base + idx, size=size, limit_mb=built_with, relimit=now, above=size > now * MIB,
+                            boundary='limit %r set to %r after construction, %d bytes' % (built_with, now, size))
+                ctx.case(case)
+                ctx.count('limit_changed_after_construction_trips')
+                trip(ctx, case)
     for i in range(ctx.budget(30, 600)):
         case = {'seed': base + 50000 + i, 'rounds': rng.choice([2, 3]), 'size': rng.choice([0, 1, 17, 300, 5000]), 'shrinking': rng.random() < 0.4,
                 'static_in': rng.random() < 0.5, 'cassette': rng.choice(['memory', 'file', 's3']), 'kind': 'rounds', 'same_key': i % 3 == 2}
